@@ -183,6 +183,33 @@ Proof.
   rewrite leaf_round_is_model. apply round_trip_small. exact Hx.
 Qed.
 
+(* ---- Slot.Check: one iteration of the loop over the resource's controllers --------------------
+   For a controller whose argument is present and whose PerformChecking returned [d] (seen through
+   r == nil, r.Status(), r.NanosToWait()), the regenerated loop body hands the request's batch count to
+   the controller (action 7), sleeps exactly when the model's [slot_dispatch] says so (action 8, same ns)
+   and leaves the loop exactly when it says SReturn; without the argument it does nothing.  Together with
+   [slot_check_iteration] (Proofs/HotspotStepProofs.v) this is one unfolding of the model's [slot_check]. *)
+Definition slot_step_expected (has_arg : bool) (batch : Z) (d : dec) : leaf_flow Z unit * list leaf_act :=
+  if has_arg then
+    match slot_dispatch d with
+    | SContinue None => (LContinue tt, [(7, [LZ batch])])
+    | SContinue (Some ns) => (LContinue tt, [(7, [LZ batch]); (8, [LZ ns])])
+    | SReturn => (LReturn 1, [(7, [LZ batch])])
+    end
+  else (LContinue tt, []).
+
+Lemma hotspot_slot_check_step_ok has_arg batch d :
+  d <> DSpin ->
+  hotspot_slot_check_step (negb has_arg) batch (res_nanos d) (res_nil d) (res_status d)
+  = slot_step_expected has_arg batch d.
+Proof.
+  intros Hd. unfold hotspot_slot_check_step, slot_step_expected. cbv zeta.
+  destruct has_arg; cbn [negb]; [|reflexivity].
+  destruct d as [|tv|ns|]; [| | |congruence];
+  cbn [res_nil res_status res_nanos slot_dispatch]; split_ifs; try reflexivity; absurd_branch.
+Qed.
+
 Print Assumptions hotspot_reject_step_ok.
 Print Assumptions hotspot_throttle_step_ok_if.
 Print Assumptions hotspot_throttle_step_ok.
+Print Assumptions hotspot_slot_check_step_ok.
